@@ -127,13 +127,27 @@ fn main() {
                     let code = *g.rng.pick(&rec_types);
                     let base_owner = g.name();
                     let mut base_rd = vec![];
-                    for _ in 0..2 {
-                        let (c, rd) = loop {
-                            let (c, _, rd) = random_rdata(&mut g, &table, 1_000_000);
-                            if c == code { break (c, rd); }
+                    for k in 0..2 {
+                        let (c, rd) = if g.rng.chance(1, 4) {
+                            // types the library has no parser for: the data
+                            // need not sort like the type codes
+                            let c = *g.rng.pick(&[65280u16, 65281, 62]);
+                            let rd = match g.rng.below(3) {
+                                0 => vec![0xff, 0xff],
+                                1 => vec![0],
+                                _ => { let n = g.small_len(20); g.octets(n) }
+                            };
+                            (c, rd)
+                        } else {
+                            // same type as the first record, or (sometimes) another
+                            let want = if k == 1 && g.rng.chance(1, 3) { *g.rng.pick(&rec_types) } else { code };
+                            loop {
+                                let (c, _, rd) = random_rdata(&mut g, &table, 1_000_000);
+                                if c == want { break (c, rd); }
+                            }
                         };
                         if base_rd.is_empty() { base_rd = rd.clone(); }
-                        let rd = if g.rng.chance(1, 2) { base_rd.clone() } else { rd };
+                        let rd = if c == code && g.rng.chance(1, 2) && k == 1 && parses(c, &base_rd) { base_rd.clone() } else { rd };
                         let owner = if g.rng.chance(1, 2) { recase(&base_owner, g.rng.below(4) as usize) } else { relabel(&mut g, &base_owner) };
                         recs.push(json!({"class": if g.rng.chance(1, 5) { 3 } else { 1 },
                                          "owner": owner, "ttl": *g.rng.pick(&[0u32, 300, 3600]),
